@@ -165,6 +165,29 @@ func smtIntToGo(v string) (string, bool) {
 // inputs and outputs are all scalars. It reports whether the real code reproduced the model.
 func tryReplay(o *Obligation) (bool, map[string]any) {
 	note := map[string]any{}
+	if o.RInfo == nil && o.Harness != "" {
+		// hand-written harness for this function: runs the real code on a fixed scenario and checks the clause
+		src, err := os.ReadFile(filepath.Join(verifDir(), o.Harness))
+		if err != nil {
+			note["status"] = "harness missing: " + err.Error()
+			return false, note
+		}
+		note["test"] = string(src)
+		note["package"] = o.HarnessPkg
+		note["harness"] = o.Harness
+		out, err := runOverlayTest(o.HarnessPkg, string(src))
+		note["output"] = truncate(out, 3000)
+		if err != nil {
+			note["status"] = "harness could not be run: " + err.Error()
+			return false, note
+		}
+		if strings.Contains(out, "REPLAY-CONFIRMED") {
+			note["status"] = "confirmed by the replay harness on the real code (fixed scenario, not the solver's model)"
+			return true, note
+		}
+		note["status"] = "the replay harness did not reproduce a violation"
+		return false, note
+	}
 	if o.RInfo == nil || o.Model == "" {
 		note["status"] = "no counterexample that can be projected onto the function's inputs"
 		return false, note
@@ -322,7 +345,7 @@ func cmdReplay(args []string) int {
 		fmt.Fprintln(os.Stderr, err)
 		return 2
 	}
-	if strings.Contains(out, "REPLAY-MATCHES-MODEL") || strings.Contains(out, "REPLAY-PANIC") {
+	if strings.Contains(out, "REPLAY-MATCHES-MODEL") || strings.Contains(out, "REPLAY-PANIC") || strings.Contains(out, "REPLAY-CONFIRMED") {
 		fmt.Println("violation reproduced on the real code")
 		return 1
 	}
